@@ -24,7 +24,9 @@ Conf == ndJsonDeserialize(IOEnv.CONFIG)[1]
 
 P0 == Desugar(Conf.lex.rules)
 E == [G |-> MkG(P0), start |-> <<Conf.lex.start>>,
-      L |-> [i \in 0..(Len(Conf.lex.lexemes) - 1) |-> MkLexeme(Conf.lex.lexemes[i + 1])],
+      L |-> [i \in 0..(Len(Conf.lex.lexemes) - 1) |->
+                MkLexemeZ(Conf.lex.lexemes[i + 1],
+                          "lazy" \in DOMAIN Conf.lex /\ i \in {Conf.lex.lazy[j] : j \in DOMAIN Conf.lex.lazy})],
       skip |-> IF "skip" \in DOMAIN Conf.lex THEN Conf.lex.skip ELSE NoSkip,
       tok |-> Conf.tok, eos |-> Conf.eos, order |-> Conf.order, alpha |-> {Conf.alpha[i] : i \in DOMAIN Conf.alpha},
       sw |-> [clearOnRollback |-> Conf.sw.clearOnRollback = 1, keyRow |-> Conf.sw.keyRow = 1,
